@@ -14,6 +14,7 @@ void harness(void)
     H_BUF = H_NULLBUF ? (uint8_t *)0 : malloc(H_BUFSZ);
     /* arm the expectation: the type function must receive exactly these arguments */
     G_EXP_ON = 1; G_EXP_BUF = H_BUF; G_EXP_PARA = 0;
+    __CPROVER_assume(H_SIZE <= H_BUFSZ && H_WIDTH <= H_BUFSZ);
 #if VW_KIND == 0
     (void)VW_FN(obj, node, H_SIZE);
 #elif VW_KIND == 1
